@@ -23,7 +23,7 @@ gvars == <<st>>
 
 AllFams == {"int", "card", "stack", "key", "group", "state", "lim"}
 
-PQuick == [ IntLo |-> -4000, IntHi |-> 4000,
+PQuick == [ IntLo |-> -3000, IntHi |-> 3000,
             Offs |-> {0, 13},                         \* fill offsets for cards and card secrets (all 32 x 10 dimensions each)
             StackSizes |-> {1, 2, 3, 4, 7, 64, 511, 512},
             StackDims |-> {<<1, 1>>, <<2, 3>>},          \* dimensions of the quadratic-residue cards inside stacks
@@ -32,15 +32,15 @@ PQuick == [ IntLo |-> -4000, IntHi |-> 4000,
             KeyPrimeHi |-> 23, KeyYs |-> 2,
             GroupPHi |-> 60, ComN |-> {1, 2, 3, 8},
             PvssN |-> 5, DkgN |-> 3, XvssN |-> 2, NestN |-> 3 ]
-PThorough == [ IntLo |-> -20000, IntHi |-> 20000,
-            Offs |-> {0, 5, 13, 21, 30},
-            StackSizes |-> 1..512,
+PThorough == [ IntLo |-> -50000, IntHi |-> 50000,
+            Offs |-> {0, 3, 5, 13, 17, 21, 26, 30},
+            StackSizes |-> (1..100) \cup {127, 128, 129, 200, 255, 256, 257, 300, 400, 500, 510, 511, 512},
             StackDims |-> {<<1, 1>>, <<2, 3>>, <<3, 1>>},
-            WideStack |-> {1, 2, 9, 64, 512},
+            WideStack |-> {1, 2, 9, 64, 512},           \* 512 cards of 32 x 10: the largest stack there is
             PermAll |-> 5,
             KeyPrimeHi |-> 47, KeyYs |-> 4,
-            GroupPHi |-> 200, ComN |-> {1, 2, 3, 8, 32, 64},
-            PvssN |-> 8, DkgN |-> 4, XvssN |-> 3, NestN |-> 4 ]
+            GroupPHi |-> 300, ComN |-> {1, 2, 3, 8, 32, 64},
+            PvssN |-> 12, DkgN |-> 5, XvssN |-> 4, NestN |-> 5 ]
 
 ---------------------------------------------------------------------------
 (* boundary integers and numerals                                           *)
